@@ -27,3 +27,4 @@ mk("C01-eval-chain-restart-overrun", "C01.overrun", "eval_chain_busy", T_work=45
 mk("C01-regexp-from-earlier-eval-spurious-timeout", "C01.early", "regex",
    params={"rx_family": "nested_plus", "rx_api": "test", "rx_build": "setup_ctor", "rx_n": 26, "rx_mode": "loop"})
 mk("C01-eval-tree-never-polled", "C01.hang", "eval_tree", T_work=20000)
+mk("C01-instanceof-on-cyclic-prototype-chain-hangs", "C01.hang", "proto_cycle", T_work=5000)
